@@ -1363,7 +1363,16 @@ class FortranFile:
             if file_ast.end_scope_regex is not None:
                 match = FRegex.END_WORD.match(line_no_comment)
                 # Handle end statement
+                closes_do = isinstance(file_ast.current_scope, Do)
                 if self.parse_end_scope_word(line_no_comment, line_no, file_ast, match):
+                    # A labelled DO terminated by its labelled END DO statement
+                    if (
+                        closes_do
+                        and line_label is not None
+                        and len(block_id_stack) > 0
+                        and block_id_stack[-1] == line_label
+                    ):
+                        block_id_stack.pop()
                     continue
                 # Look for old-style end of DO loops with line labels
                 if self.parse_do_fixed_format(
